@@ -173,6 +173,7 @@ func DumpEPC(epc *common.EpochsContext, valCount uint64, withPubkeys bool) []byt
 	}
 	sb.WriteByte('\n')
 	fmt.Fprintf(&sb, "total_active_stake %d\n", epc.TotalActiveStake)
+	fmt.Fprintf(&sb, "total_active_stake_sqrt %d\n", epc.TotalActiveStakeSqRoot)
 	if epc.CurrentSyncCommittee != nil {
 		wl("sync_current", epc.CurrentSyncCommittee.Indices)
 	}
